@@ -442,7 +442,9 @@ def _routing(ck: Checker) -> None:
                 # the index must be built for the remote (data) store
                 src = ""
                 if v is not None:
-                    src = " ".join(norm(a) for a in expand1(prog, fn, v))
+                    from .C18 import root_mapping_canon
+
+                    src = " ".join(root_mapping_canon(fn)(norm(a)) for a in expand1(prog, fn, v))
                 ck.require(okr and "get_index(data.odb)" in src, "C12.routing", fn, c, f"{fname} passes the remote's index as {role}",
                            f"{fname} does not pass get_index(data.odb) as {role} (and only that)", construct=f"transfer(... {role}=...) in {fname}")
 
